@@ -18,19 +18,27 @@
   decided there, Commit.  Ghost accumulators (fields `g…` of the state) record what was staked,
   withdrawn, slashed, scheduled and unlocked; they are written by the model and never read by it.
 
-  Clauses and status
-    1. frozen guard ............................. full strength (`frozen_blocks_all_three`)
+  Clauses and status (model of /repo as repaired by 9ac9bcb, 626f990, df2e1ab, 92417eb, d8b47b0, acb5e5c,
+  ebb3d1d, 7abde80)
+    1. frozen guard ............................. full strength for the named validator
+                                                  (`frozen_blocks_all_three`) and for the stake
+                                                  account of any frozen validator, whatever validator
+                                                  the message names (`frozen_owner_cannot_withdraw`)
     2. maturity, exactly once ................... full strength under the maturity-option
                                                   well-formedness (`unlock_exactly_at_maturity`)
-    3. withdrawn ≤ staked − penalties ........... full strength since 9ac9bcb (amounts outside
-                                                  int64 are refused by `Validate`); without that
-                                                  guard the handlers mint: `int64_guard_is_necessary`
-    4. validator record = Σ locked amounts ...... FALSE of the code as it is (two genuine defects,
-                                                  known findings KF-C11-1 and KF-C11-2); proved as
-                                                  `…_partial` under exactly the two hypotheses the
-                                                  code forces, with proved counterexamples
-                                                  `slash_dropped_by_purge_rule` and
-                                                  `restake_after_zero_deletes_record`
+    3. withdrawn ≤ staked − penalties ........... full strength (amounts outside int64 are refused
+                                                  by `Validate`; necessity: `int64_guard_is_necessary`)
+    4. validator record = Σ locked amounts ...... full strength: the three defects found here
+                                                  (KF-C11-1, -2, -3) are repaired and no hypothesis
+                                                  forced by a defect is left (`tot_eq_sum_vd`,
+                                                  `eff_eq_sum_vd`, `record_matches_validator`,
+                                                  `only_stake_address_holds_stake`; regression examples
+                                                  `restake_after_zero_keeps_record`, `slash_survives_purge`,
+                                                  `slash_charges_current_stake_address`).  What remains
+                                                  are well-formedness hypotheses: a finite address
+                                                  universe, the supply bound staking < 2^63, sane genesis
+                                                  entries (one stake address per validator), verdict
+                                                  lists without duplicates, 0 ≤ penalty ≤ total.
 -/
 import OLP.Stake.Lemmas
 
@@ -65,17 +73,35 @@ theorem pending_allegation_blocks_unstake (s : St) (v d : Addr) (a : Int) (hr : 
   · exact h
   · rw [hr] at hr'; simp at hr'
 
-/-- the guard is by *named* validator: the withdrawable amount is kept per delegator, so the
-    delegator of a frozen validator can still withdraw by naming another (even a non-existent)
-    validator.  Recorded here so that the statement above is not read as more than it says. -/
-theorem frozen_guard_is_by_named_validator :
-    ∃ (s : St) (v w d : Addr), s.frozen v = true ∧
-      (∃ r, s.vals v = some r ∧ r.sa = d) ∧ (stepTx s (.withdraw w d 3)).2 = .ok := by
-  let e := St.empty 2
-  let s : St := { e with frozen := fun v => decide (v = 1),
-                         vals := fun v => if v = 1 then some ⟨10, 10, 2⟩ else none,
-                         bnd := fun d => if d = 2 then 5 else 0 }
-  exact ⟨s, 1, 7, 2, by decide, ⟨⟨10, 10, 2⟩, by decide, rfl⟩, by decide⟩
+/-- df2e1ab + 92417eb: the withdrawable amount is kept per stake address, so WITHDRAW also
+    refuses the stake account of a frozen validator, whatever validator the message names.  The
+    guard goes over the validator records the store iteration enumerates (`iterVals`: every
+    record that existed at the last Commit — a record created in the running block is not
+    enumerated, but STAKE refuses a frozen validator, so such a record is not frozen) and asks
+    the point lookup `frozen` for each. -/
+theorem frozen_owner_cannot_withdraw (s : St) (v w d : Addr) (a : Int) (r : VRec)
+    (hs : v ∈ s.iterVals) (hr : s.vals v = some r) (hsa : r.sa = d) (hf : s.frozen v = true) :
+    (stepTx s (.withdraw w d a)).1 = s ∧ (stepTx s (.withdraw w d a)).2 ≠ .ok := by
+  rcases txWithdraw_cases s w d a with h | ⟨_, _, _, _, _, hfo, _⟩
+  · exact h
+  · exfalso
+    have : frozenOwner s d = true := by
+      unfold frozenOwner
+      rw [List.any_eq_true]
+      exact ⟨v, hs, by simp [hr, hsa, hf]⟩
+    rw [this] at hfo; simp at hfo
+
+/-- the guard does not overreach: with no frozen validator among the enumerated records of the
+    stake address, a WITHDRAW within the withdrawable amount goes through -/
+example :
+    let e := St.empty 2
+    let s : St := { e with frozen := fun v => decide (v = 1), iterVals := [1, 4],
+                           vals := fun v => if v = 1 then some ⟨10, 10, 2⟩
+                                            else if v = 4 then some ⟨3, 3, 6⟩ else none,
+                           bnd := fun _ => 5 }
+    (stepTx s (.withdraw 4 6 3)).2 = .ok ∧ (stepTx s (.withdraw 4 2 3)).2 = .mismatch ∧
+    (stepTx s (.withdraw 7 2 3)).2 = .frozen := by
+  decide
 
 /-! ## 2. Withdrawable only after unstake + maturity, exactly once -/
 
@@ -86,7 +112,7 @@ theorem withdraw_needs_bounded (s : St) (v d : Addr) (a : Int)
     0 < a ∧ a ≤ s.bnd d ∧
     (stepTx s (.withdraw v d a)).1.bnd d = s.bnd d - a ∧
     (stepTx s (.withdraw v d a)).1.bal d = s.bal d + a * oltBase := by
-  rcases txWithdraw_cases s v d a with h | ⟨h0, _, hc, _, _, hb, he⟩
+  rcases txWithdraw_cases s v d a with h | ⟨h0, _, hc, _, _, _, hb, he⟩
   · exact absurd hok h.2
   · simp only [stepTx]
     rw [he]
@@ -100,7 +126,7 @@ theorem bounded_changes_only_by_own_withdraw (s : St) (t : Tx) (d : Addr) :
   generalize he : (stepTx s t).1 = s'
   have e : TxEffect s t s' := he ▸ stepTx_effect s t
   cases e with
-  | withdraw v d' a h0 hlt hc ho hf hb =>
+  | withdraw v d' a h0 hlt hc ho hf hfo hb =>
     by_cases hd : d = d'
     · subst hd
       right
@@ -112,11 +138,11 @@ theorem beginBlock_keeps_bounded (s : St) (h : Int) : (beginBlock s h).bnd = s.b
 
 /-- EndBlock of height h credits exactly the entries stored under h (nothing at height 1) and
     empties that list: nothing is credited early, nothing twice -/
-theorem endBlock_credits_current_height (c : Cfg) (s : St) (g p : List Addr) (d : Addr) :
-    (endBlock c s g p).bnd d =
+theorem endBlock_credits_current_height (c : Cfg) (s : St) (g p dl : List Addr) (d : Addr) :
+    (endBlock c s g p dl).bnd d =
       s.bnd d + (if s.height ≤ 1 then 0 else amtOf d (s.mat s.height)) ∧
-    (1 < s.height → (endBlock c s g p).mat s.height = []) ∧
-    (∀ k, k ≠ s.height → (endBlock c s g p).mat k = s.mat k) := by
+    (1 < s.height → (endBlock c s g p dl).mat s.height = []) ∧
+    (∀ k, k ≠ s.height → (endBlock c s g p dl).mat k = s.mat k) := by
   unfold endBlock
   by_cases h1 : s.height ≤ 1
   · simp [h1]; intro h; omega
@@ -132,7 +158,7 @@ theorem endBlock_credits_current_height (c : Cfg) (s : St) (g p : List Addr) (d 
         cases hp : s.prev v with
         | none => rw [slash_none c s v hp]
         | some r' => rw [slash_some c s v r' hp]; simp [minus_fst]
-    obtain ⟨f1, _⟩ := foldSlash_mat c (updateWithdrawReward (writePurge (deleteZeroPower s) p) s.height) g
+    obtain ⟨f1, _⟩ := foldSlash_mat c (updateWithdrawReward (writePurge (deleteZeroPower s dl) p) s.height) g
     refine ⟨?_, ?_, ?_⟩
     · rw [hb, uwr_bnd]; rfl
     · intro _; rw [f1]; simp [updateWithdrawReward]
@@ -163,7 +189,7 @@ theorem schedule_only_from_unstake (s : St) (t : Tx) (k : Int) (d : Addr) :
     · simp only [stepTx]; rw [he]; rfl
   | withdraw v d' a =>
     left
-    rcases txWithdraw_cases s v d' a with h | ⟨_, _, _, _, _, _, he⟩
+    rcases txWithdraw_cases s v d' a with h | ⟨_, _, _, _, _, _, _, he⟩
     · simp only [stepTx]; rw [h.1]
     · simp only [stepTx]; rw [he]; rfl
   | genesisStake v d' a =>
@@ -273,30 +299,26 @@ theorem int64_guard_is_necessary :
 
 /-! ## 4. The validator's recorded stake equals the sum of its delegators' locked amounts
 
-  Full statement (FALSE of the code as it is):
-
       ∀ history, ∀ v,  tot v = Σ_d vd v d   ∧   eff d = Σ_v vd v d   ∧
-                       (validator record of v).staking = tot v   (no record: tot v = 0)
+                       (validator record of v).staking = tot v + (slash postponed to the next
+                       BeginBlock)   (no record: tot v = 0)
 
-  Two defects of the code break the last conjunct (and, through the slash that then fails
-  half-way, can break the first):
+  Proved for every history under hypotheses that are not forced by any defect (`RecordsOK`):
+  a duplicate-free universe `U` containing the addresses the history stakes with; the supply
+  bound (`staking < 2^63`: `calculatePower` is `Int64()`); genesis entries with sane amounts and
+  one stake address per validator; verdict lists without duplicates (`CleanTracker`); the penalty
+  function satisfies 0 ≤ pen t ≤ t.
 
-    KF-C11-2  GetEndBlockUpdate deletes a validator record at the end of block h when the record
-              *of block h−1* had no power, whatever was staked with the validator during block h.
-    KF-C11-1  the unstake a slash postpones to the next BeginBlock is refused by the purge rule
-              ("not allowed to unstake within 2 blocks after unstake") when the election purged
-              the validator in the same EndBlock; it is never retried.
+  Three defects of the code used to break this clause; all are repaired and no longer assumed:
+  KF-C11-2 (d8b47b0: the current record decides the deletion of a powerless record), KF-C11-1
+  (acb5e5c: the postponed unstake ignores the purge rule), KF-C11-3 (ebb3d1d: a verdict charges
+  the current stake address; 7abde80: MinusFromAddress writes all three amounts or none). -/
 
-  The `_partial` theorems hold under exactly the negation of these two situations (guards
-  `StakeGuard` — clause 3 — and `EndGuard`), evaluated along the run, plus the supply bound
-  (`staking < 2^63`, `calculatePower` is `Int64()`), for any duplicate-free universe `U` of
-  addresses that contains the addresses the history stakes with. -/
-
-/-- the hypotheses of the `_partial` theorems -/
+/-- the hypotheses of the clause-4 theorems (none forced by a defect) -/
 def RecordsOK (U : List Addr) (c : Cfg) (m : Int) (bs : List Block) : Prop :=
   U.Nodup ∧ PenOK c ∧ RunOK (RecGuard U) EndGuard c (St.empty m) bs
 
-theorem tot_eq_sum_vd_partial (U : List Addr) (c : Cfg) (m : Int) (bs : List Block)
+theorem tot_eq_sum_vd (U : List Addr) (c : Cfg) (m : Int) (bs : List Block)
     (hg : RecordsOK U c m bs) (v : Addr) :
     let s := run c (St.empty m) bs
     s.tot v = sumL U (fun d => s.vd v d) ∧ ∀ d, d ∉ U → s.vd v d = 0 := by
@@ -307,7 +329,7 @@ theorem tot_eq_sum_vd_partial (U : List Addr) (c : Cfg) (m : Int) (bs : List Blo
   · exact h0
   · exact absurd (h.sup v d h0).2 hd
 
-theorem eff_eq_sum_vd_partial (U : List Addr) (c : Cfg) (m : Int) (bs : List Block)
+theorem eff_eq_sum_vd (U : List Addr) (c : Cfg) (m : Int) (bs : List Block)
     (hg : RecordsOK U c m bs) (d : Addr) :
     let s := run c (St.empty m) bs
     s.eff d = sumL U (fun v => s.vd v d) ∧ ∀ v, v ∉ U → s.vd v d = 0 := by
@@ -321,7 +343,7 @@ theorem eff_eq_sum_vd_partial (U : List Addr) (c : Cfg) (m : Int) (bs : List Blo
 /-- the validator record carries the locked total; the slash decided in the EndBlock just
     executed reaches the record at the next BeginBlock (`delayHandleUnstake`), which is the
     explicit `pendOf` term; a validator without record has nothing locked -/
-theorem record_matches_validator_partial (U : List Addr) (c : Cfg) (m : Int) (bs : List Block)
+theorem record_matches_validator (U : List Addr) (c : Cfg) (m : Int) (bs : List Block)
     (hg : RecordsOK U c m bs) (v : Addr) :
     let s := run c (St.empty m) bs
     match s.vals v with
@@ -334,49 +356,70 @@ theorem record_matches_validator_partial (U : List Addr) (c : Cfg) (m : Int) (bs
   | some r => exact ⟨(h.staking v r hv).1, (h.staking v r hv).2.1⟩
 
 /-- only the current stake address of a validator holds stake with it -/
-theorem only_stake_address_holds_stake_partial (U : List Addr) (c : Cfg) (m : Int)
+theorem only_stake_address_holds_stake (U : List Addr) (c : Cfg) (m : Int)
     (bs : List Block) (hg : RecordsOK U c m bs) (v d : Addr) :
     let s := run c (St.empty m) bs
     s.vd v d ≠ 0 → ∃ r, s.vals v = some r ∧ r.sa = d :=
   (rec_run hg.1 hg.2.1 (rec_empty U m) (boundary_empty m) (nonNeg_empty m) bs hg.2.2).1.single v d
 
-/-- KF-C11-2, proved on the model and replayed on the implementation by the harness
-    (corpus/C11/kf2_restake_after_zero.script): delegator 2 stakes 10 with validator 1 (genesis),
-    unstakes everything in block 2 and stakes 5 again in block 3.  EndBlock 3 deletes the record
-    because the record of block 2 had power 0: afterwards validator 1 has no record while 5
-    tokens of delegator 2 are locked with it (and cannot be unstaked: `HandleUnstake` fails). -/
-theorem restake_after_zero_deletes_record :
-    let s := run cfg30 (St.empty 2)
-      [ ⟨[.credit 2 (100 * oltBase), .genesisStake 1 2 10], [], []⟩,
-        ⟨[.unstake 1 2 10], [], []⟩,
-        ⟨[.stake 1 2 5], [], []⟩ ]
-    s.vals 1 = none ∧ s.tot 1 = 5 ∧ s.vd 1 2 = 5 ∧ s.eff 2 = 5 ∧
-    (stepTx (beginBlock s 4) (.unstake 1 2 5)).2 = .novalidator := by
+/-- regression example for KF-C11-3 (repaired by ebb3d1d + 7abde80;
+    corpus/C11/kf3_slash_charges_previous_stake_address.script): delegator 2 stakes 10 with
+    validator 1 (genesis), unstakes everything and withdraws it; in block 5 delegator 3 stakes 10
+    with validator 1 under its own address (allowed: the old address is clean) and validator 1 is
+    found guilty in the same block.  The slash is charged to the current stake address 3 (before
+    the repair: to address 2 of the previous block's record, which left total 7 / delegation 10). -/
+theorem slash_charges_current_stake_address :
+    let s := run cfg30 (St.empty 1)
+      [ ⟨[.credit 3 (100 * oltBase), .genesisStake 1 2 10], [], [], []⟩,
+        ⟨[.unstake 1 2 10], [], [], []⟩,
+        ⟨[], [], [], []⟩,
+        ⟨[.withdraw 1 2 10], [], [], []⟩,
+        ⟨[.stake 1 3 10], [1], [], []⟩ ]
+    s.tot 1 = 7 ∧ s.vd 1 3 = 7 ∧ s.vd 1 2 = 0 ∧ s.eff 3 = 7 ∧ s.gPenal 3 = 3 ∧
+    s.vals 1 = some ⟨10, 10, 3⟩ ∧ pendOf s 1 = 3 := by
   decide
 
-/-- KF-C11-1, proved on the model and replayed on the implementation
-    (corpus/C11/kf1_slash_dropped_by_purge.script): validator 1 (10 tokens of delegator 2) is
-    found guilty and purged in the same EndBlock 2.  The slash takes 3 tokens from the locked
-    amounts, the postponed unstake of 3 is refused by the purge rule in BeginBlock 3: the record
-    keeps staking 10 while only 7 are locked, for ever. -/
-theorem slash_dropped_by_purge_rule :
+/-- regression example for KF-C11-2 (repaired by d8b47b0; corpus/C11/kf2_restake_after_zero.script):
+    unstake everything in block 2, stake 5 again in block 3 — the record stays, even when the
+    election would allow the deletion, and the stake can be unstaked -/
+theorem restake_after_zero_keeps_record :
     let s := run cfg30 (St.empty 2)
-      [ ⟨[.genesisStake 1 2 10], [], []⟩,
-        ⟨[], [1], [1]⟩,
-        ⟨[], [], []⟩ ]
-    s.vals 1 = some ⟨10, 10, 2⟩ ∧ s.tot 1 = 7 ∧ pendOf s 1 = 0 := by
+      [ ⟨[.credit 2 (100 * oltBase), .genesisStake 1 2 10], [], [], []⟩,
+        ⟨[.unstake 1 2 10], [], [], [1]⟩,
+        ⟨[.stake 1 2 5], [], [], [1]⟩ ]
+    s.vals 1 = some ⟨5, 5, 2⟩ ∧ s.tot 1 = 5 ∧ s.vd 1 2 = 5 ∧ s.eff 2 = 5 ∧
+    (stepTx (beginBlock s 4) (.unstake 1 2 5)).2 = .ok := by
+  decide
+
+/-- regression example for KF-C11-1 (repaired by acb5e5c; corpus/C11/kf1_slash_dropped_by_purge.script):
+    guilty and purged in the same EndBlock 2 — the postponed unstake reaches the record in
+    BeginBlock 3 -/
+theorem slash_survives_purge :
+    let s := run cfg30 (St.empty 2)
+      [ ⟨[.genesisStake 1 2 10], [], [], []⟩,
+        ⟨[], [1], [1], []⟩,
+        ⟨[], [], [], []⟩ ]
+    s.vals 1 = some ⟨7, 7, 2⟩ ∧ s.tot 1 = 7 ∧ pendOf s 1 = 0 := by
+  decide
+
+/-- a powerless record is deleted once the election allows it, and only then -/
+theorem powerless_record_deleted_when_settled :
+    let bs : List Block :=
+      [ ⟨[.genesisStake 1 2 10], [], [], []⟩, ⟨[.unstake 1 2 10], [], [], []⟩, ⟨[], [], [], []⟩ ]
+    (run cfg30 (St.empty 2) bs).vals 1 = some ⟨0, 0, 2⟩ ∧
+    (run cfg30 (St.empty 2) (bs ++ [⟨[], [], [], [1]⟩])).vals 1 = none := by
   decide
 
 /-! ## Non-vacuity: the hypotheses are met by non-trivial histories -/
 
 /-- a complete lifecycle: genesis stake 10, a paid stake of 4, unstake 6 in block 2 (maturity 2),
-    unlock at the end of block 4, withdraw 5 in block 5; a guilty verdict in block 3 -/
+    unlock at the end of block 4, withdraw 5 in block 5; a guilty verdict with a purge in block 3 -/
 def exHistory : List Block :=
-  [ ⟨[.credit 2 (100 * oltBase), .genesisStake 1 2 10, .stake 1 2 4], [], []⟩,
-    ⟨[.unstake 1 2 6], [], []⟩,
-    ⟨[.allege 1], [1], []⟩,
-    ⟨[.release 1, .withdraw 1 2 1], [], []⟩,
-    ⟨[.withdraw 1 2 5], [], []⟩ ]
+  [ ⟨[.credit 2 (100 * oltBase), .genesisStake 1 2 10, .stake 1 2 4], [], [], []⟩,
+    ⟨[.unstake 1 2 6], [], [], []⟩,
+    ⟨[.allege 1], [1], [1], []⟩,
+    ⟨[.release 1, .withdraw 1 2 1], [], [], []⟩,
+    ⟨[.withdraw 1 2 5], [], [], [1]⟩ ]
 
 example :
     let s := run cfg30 (St.empty 2) exHistory
@@ -398,24 +441,41 @@ example : GenesisOK exHistory := by
 
 example : PenOK cfg30 := penalty30_ok
 
-/-- the lifecycle above satisfies the hypotheses of the `_partial` theorems … -/
+/-- the lifecycle above satisfies the hypotheses of the clause-4 theorems … -/
 example : RecordsOK [1, 2] cfg30 2 exHistory := ⟨by decide, penalty30_ok, by decide⟩
 
 /-- … and of the maturity theorem, also with changes of the maturity option (to 0 and to 3) -/
 example : MaturityOK cfg30 2 exHistory := ⟨by decide, by decide⟩
 
 example : MaturityOK cfg30 1
-    [ ⟨[.credit 2 (100 * oltBase), .genesisStake 1 2 10], [], []⟩,
-      ⟨[.setMaturity 0, .unstake 1 2 3], [], []⟩,
-      ⟨[.setMaturity 3, .unstake 1 2 2, .withdraw 1 2 3], [], []⟩ ] := ⟨by decide, by decide⟩
+    [ ⟨[.credit 2 (100 * oltBase), .genesisStake 1 2 10], [], [], []⟩,
+      ⟨[.setMaturity 0, .unstake 1 2 3], [], [], []⟩,
+      ⟨[.setMaturity 3, .unstake 1 2 2, .withdraw 1 2 3], [], [], []⟩ ] := ⟨by decide, by decide⟩
 
-/-- the guards are not vacuous either: the two counterexample histories violate them -/
+/-- the histories that needed a forced hypothesis before the repairs satisfy the guards now -/
+example : RecordsOK [1, 2] cfg30 2
+    [ ⟨[.credit 2 (100 * oltBase), .genesisStake 1 2 10], [], [], []⟩,
+      ⟨[.unstake 1 2 10], [], [], [1]⟩,
+      ⟨[.stake 1 2 5], [], [], [1]⟩ ] := ⟨by decide, penalty30_ok, by decide⟩
+
+example : RecordsOK [1, 2] cfg30 2
+    [ ⟨[.genesisStake 1 2 10], [], [], []⟩, ⟨[], [1], [1], []⟩, ⟨[], [], [], []⟩ ] :=
+  ⟨by decide, penalty30_ok, by decide⟩
+
+example : RecordsOK [1, 2, 3] cfg30 1
+    [ ⟨[.credit 3 (100 * oltBase), .genesisStake 1 2 10], [], [], []⟩,
+      ⟨[.unstake 1 2 10], [], [], []⟩,
+      ⟨[], [], [], []⟩,
+      ⟨[.withdraw 1 2 10], [], [], []⟩,
+      ⟨[.stake 1 3 10], [1], [], []⟩ ] := ⟨by decide, penalty30_ok, by decide⟩
+
+/-- the hypotheses are not vacuous: a verdict list with a duplicate, or a stake beyond the supply
+    bound, violates them -/
 example : ¬ RunOK (RecGuard [1, 2]) EndGuard cfg30 (St.empty 2)
-    [ ⟨[.credit 2 (100 * oltBase), .genesisStake 1 2 10], [], []⟩,
-      ⟨[.unstake 1 2 10], [], []⟩,
-      ⟨[.stake 1 2 5], [], []⟩ ] := by decide
+    [ ⟨[.genesisStake 1 2 10], [], [], []⟩, ⟨[], [1, 1], [], []⟩ ] := by decide
 
 example : ¬ RunOK (RecGuard [1, 2]) EndGuard cfg30 (St.empty 2)
-    [ ⟨[.genesisStake 1 2 10], [], []⟩, ⟨[], [1], [1]⟩, ⟨[], [], []⟩ ] := by decide
+    [ ⟨[.credit 2 (two63 * oltBase), .genesisStake 1 2 10, .stake 1 2 (two63 - 5)], [], [], []⟩ ] := by
+  decide
 
 end OLP.Props.C11
